@@ -1084,7 +1084,8 @@ class Gen:
             for s in self.graphs(unlocked=True)[:4]:
                 yield dict(k="drop", s=s)
         anc = self.slot_id()
-        for op in self.tx_build(kind=base_kind, size=rng.randint(3, self.cfg["max_atoms"])):
+        for op in self.tx_build(kind=base_kind, size=rng.randint(3, self.cfg["max_atoms"]),
+                                motif=rng.choice(("star", "tetra4", "ez", "ring", "chain", "random"))):
             op = dict(op)
             if "dst" in op and op["k"] == "new":
                 op["dst"] = anc
@@ -1093,6 +1094,26 @@ class Gen:
             yield op
         if self.w.graph(anc) is None or not self.w.slots[anc].model.atoms:
             return
+        if stereo:
+            # decorate the ancestor so that descriptors are shared by R, TS and P
+            for _ in range(rng.randint(1, 6)):
+                sl = self.w.graph(anc)
+                if sl is None:
+                    return
+                m = sl.model
+                free_a = [a for a in m.sorted_atoms() if a not in m.astereo]
+                free_b = [b for b in m.sorted_bonds() if B(*b) not in m.bstereo]
+                d = None
+                if free_a and rng.random() < 0.65:
+                    d = self.atom_desc(m, centre=rng.choice(free_a), cls=rng.choice(geom.ATOM_CLASSES),
+                                       allow_none=rng.random() < 0.1)
+                    if d:
+                        yield dict(k="set_astereo", s=anc, d=model.list_desc(d))
+                elif free_b:
+                    d = self.bond_desc(m, bond=rng.choice(free_b), cls=rng.choice(geom.BOND_CLASSES),
+                                       allow_none=rng.random() < 0.1)
+                    if d:
+                        yield dict(k="set_bstereo", s=anc, d=model.list_desc(d))
         r, p, ts = self.slot_id(), self.slot_id(), self.slot_id()
         yield dict(k="copy", src=anc, dst=r)
         yield dict(k="copy", src=anc, dst=p)
